@@ -147,6 +147,8 @@ def cfg_args(cfg):
         a += ['--fuzz', str(cfg['fuzz'])]
     if cfg.get('dry'):
         a.append('--dry-run')
+    if cfg.get('patches_dir'):
+        a += ['-p', cfg['patches_dir']]
     a += cfg.get('extra', [])
     return a
 
@@ -155,9 +157,10 @@ def run_series(m0, series, cfg, root=None, names=None, sched=None, trace=False, 
     """materialise the workspace, run the real binary, return (outcome, before, after)"""
     root = root or os.path.join(wdir(), 'ws')
     files, patches, lines = tq.workspace_of(m0, series, names)
-    ws.make_ws(root, files, patches, lines)
-    before = ws.snapshot(root)
+    pd = cfg.get('patches_dir') or 'patches'
+    ws.make_ws(root, files, patches, lines, patches_dir=pd)
+    before = ws.snapshot(root, skip=(pd.split('/')[0], 'series'))
     tr = os.path.join(wdir(), 'trace') if (trace or cfg.get('threads', 1) > 1) else None
-    o = ws.run_rq(root, cfg_args(cfg), threads=cfg.get('threads', 1), sched=sched, trace=tr, preload_env=preload_env)
-    after = ws.snapshot(root)
+    o = ws.run_rq(root, cfg_args(cfg), threads=cfg.get('threads', 1), sched=sched, trace=tr, preload_env=preload_env, use_d=not cfg.get('no_d'), threads_env=bool(cfg.get('threads_env')))
+    after = ws.snapshot(root, skip=(pd.split('/')[0], 'series'))
     return o, before, after
